@@ -311,7 +311,7 @@ theorem ip6_next_header_names_follower (tc flow hop nh : Nat) (src dst : Bytes)
     (n : Layer) (rest' : List Layer) (p : Option Layer) (t : Nat) (hn : wf n = true)
     (ht : ipProtoOf n = some t) :
     u8 (serialize (.ip6 tc flow hop nh src dst [] :: n :: rest') p) 6 = t := by
-  simp only [serialize, write, ip6LastNextHeader, List.head?_cons]
+  simp only [serialize, write, ip6LastNextHeader, nextOf, List.head?_cons]
   simp only [w16, List.cons_append, List.nil_append, u8_cons_succ, u8_cons_zero, b8_toNat]
   cases n with
   | ip a b c d e f g h i =>
